@@ -242,6 +242,8 @@ def plan(ctx):
     ties = [{"kind": "cfg", "cfg": dict(target=t, n_particles=npart, n_total=4 * npart, ess_ratio=er, eval=ev, clustering=False, vv=vv, sample=k), "base": ctx.seed, "shifts": shifts, "max_dev": 0, "max_runs": 1}
             for t in ("flat", "plateau", "hole") for npart in (8, 16) for er in (1.0, 2.0, 3.0) for ev in ("scalar", "vec") for vv in (None, 0.5) for k in (("tpcn", "rwm") if th else ("tpcn",))]
     ctx.explore("exact-ties", ties)
+    from mc.pipeline import LARGE
+    ctx.explore("large-scopes", [{"kind": "cfg", "cfg": c, "base": ctx.seed, "shifts": shifts[:2], "max_dev": 0, "max_runs": 1} for c in LARGE])
     agg = ctx.explore("paired-runs", cases)
     if agg.extra.get("run_cap_hit"):
         ctx.cap(f"tape-deviation tree truncated in {agg.extra['run_cap_hit']} configurations (0-deviation tape and the earliest 1-deviation tapes complete)")
